@@ -196,7 +196,10 @@ func c05Rules(p *core.Prog, r *core.Run) {
 	c05Direct(p, r, m, "C05.P4")
 
 	// --- P5
-	c05SniAlpn(p, r, m)
+	c05SniAlpn(p, r, m, "C05.P5")
+
+	// --- P6
+	c05Rejections(p, r, m, "C05.P6")
 }
 
 func isCHFieldObj(m *echModel, e *core.Expr) bool {
@@ -399,7 +402,7 @@ func c05Direct(p *core.Prog, r *core.Run, m *echModel, rule string) {
 	r.Floor(rule, 6)
 }
 
-func c05SniAlpn(p *core.Prog, r *core.Run, m *echModel) {
+func c05SniAlpn(p *core.Prog, r *core.Run, m *echModel, rule string) {
 	fn := m.parseExt
 	typeFact := func(fs []core.Fact, k string) bool {
 		for _, f := range fs {
@@ -440,9 +443,9 @@ func c05SniAlpn(p *core.Prog, r *core.Run, m *echModel) {
 				nameType = true
 			}
 		}
-		r.Check("C05.P5", "parseExtensions:ServerName", ok && ext0 && nameType, p.InstrPos(st), "ServerName = string(host_name) exactly as read (%v; value %s), in extension 0 (%v), under name_type == 0 (%v)", ok, short(v), ext0, nameType)
+		r.Check(rule, "parseExtensions:ServerName", ok && ext0 && nameType, p.InstrPos(st), "ServerName = string(host_name) exactly as read (%v; value %s), in extension 0 (%v), under name_type == 0 (%v)", ok, short(v), ext0, nameType)
 	}
-	r.Check("C05.P5", "parseExtensions:ServerName-site", n == 1, p.Pos(fn.Pos()), "one place sets ServerName from the wire (found %d)", n)
+	r.Check(rule, "parseExtensions:ServerName-site", n == 1, p.Pos(fn.Pos()), "one place sets ServerName from the wire (found %d)", n)
 	// ALPN
 	n = 0
 	for _, st := range fieldStores(p, []*ssa.Function{fn}, m.fCH["ALPNProtos"]) {
@@ -452,7 +455,7 @@ func c05SniAlpn(p *core.Prog, r *core.Run, m *echModel) {
 		}
 		bi, ok := c.Call.Value.(*ssa.Builtin)
 		if !ok || bi.Name() != "append" {
-			r.Check("C05.P5", "parseExtensions:ALPN", false, p.InstrPos(st), "ALPNProtos is not built by append: %s", short(p.X(st.Val)))
+			r.Check(rule, "parseExtensions:ALPN", false, p.InstrPos(st), "ALPNProtos is not built by append: %s", short(p.X(st.Val)))
 			continue
 		}
 		n++
@@ -473,9 +476,9 @@ func c05SniAlpn(p *core.Prog, r *core.Run, m *echModel) {
 				}
 			}
 		}
-		r.Check("C05.P5", "parseExtensions:ALPN", okBase && okElem && typeFact(p.Facts(st.Block()), "16"), p.InstrPos(st), "ALPNProtos = append(ALPNProtos, string(protocol_name)) exactly as read, in extension 16")
+		r.Check(rule, "parseExtensions:ALPN", okBase && okElem && typeFact(p.Facts(st.Block()), "16"), p.InstrPos(st), "ALPNProtos = append(ALPNProtos, string(protocol_name)) exactly as read, in extension 16")
 	}
-	r.Check("C05.P5", "parseExtensions:ALPN-site", n == 1, p.Pos(fn.Pos()), "one place appends to ALPNProtos (found %d)", n)
+	r.Check(rule, "parseExtensions:ALPN-site", n == 1, p.Pos(fn.Pos()), "one place appends to ALPNProtos (found %d)", n)
 	// nesting of the cursors: list cursors are uint16-prefixed reads of the extension data
 	lists := 0
 	for _, s := range callSites(p, []*ssa.Function{fn}, `\(\*cryptobyte\.String\)\.ReadUint16LengthPrefixed`) {
@@ -484,7 +487,7 @@ func c05SniAlpn(p *core.Prog, r *core.Run, m *echModel) {
 			lists++
 		}
 	}
-	r.Check("C05.P5", "parseExtensions:list-prefix", lists >= 2, p.Pos(fn.Pos()), "server_name_list and protocol_name_list are read as uint16 length-prefixed vectors (%d)", lists)
+	r.Check(rule, "parseExtensions:list-prefix", lists >= 2, p.Pos(fn.Pos()), "server_name_list and protocol_name_list are read as uint16 length-prefixed vectors (%d)", lists)
 	// tls13 flag
 	for _, st := range fieldStores(p, []*ssa.Function{fn}, m.fCH["tls13"]) {
 		if c, ok := st.Val.(*ssa.Const); ok && c.Value != nil && c.Value.ExactString() == "true" {
@@ -495,8 +498,78 @@ func c05SniAlpn(p *core.Prog, r *core.Run, m *echModel) {
 					ver = true
 				}
 			}
-			r.Check("C05.P5", "parseExtensions:tls13", ver && typeFact(fs, "43"), p.InstrPos(st), "tls13 is set for a supported_versions (43) entry >= 0x0304")
+			r.Check(rule, "parseExtensions:tls13", ver && typeFact(fs, "43"), p.InstrPos(st), "tls13 is set for a supported_versions (43) entry >= 0x0304")
 		}
 	}
-	r.Floor("C05.P5", 6)
+	r.Floor(rule, 6)
+}
+
+// c05Rejections: the hello parser turns a hello down only for being malformed
+// (a read failed) or for one of the reasons the ECH draft and RFC 8446 name; a
+// new semantic rejection would abort handshakes of clients that do not use ECH
+// at all, which the proxy must pass through untouched.
+func c05Rejections(p *core.Prog, r *core.Run, m *echModel, rule string) {
+	isRead := func(e *core.Expr) bool {
+		return e.Op == "call" && matches(`\(\*cryptobyte\.String\)\.(Read|Skip|Copy).*`, e.Name)
+	}
+	reason := func(fs []core.Fact) string {
+		for _, f := range fs {
+			switch {
+			case f.Op == "false" && isRead(f.L):
+				return "a read failed"
+			case f.Op == "!=" && f.R != nil && f.R.Name == "1" && f.L.Any(func(x *core.Expr) bool { return x.Op == "out" && strings.HasSuffix(x.Name, "ReadUint8") }):
+				return "handshake message type is not client_hello"
+			case f.Op == "!=" && f.R != nil && f.R.Name == "0" && f.L.Any(func(x *core.Expr) bool { return x.Op == "out" && strings.HasSuffix(x.Name, "ReadUint8") }):
+				return "server_name entry of a type other than host_name"
+			case f.Op == ">" && f.R != nil && f.R.Name == "0" && f.L.Op == "call" && f.L.Name == "len" && f.L.Args[0].Op == "field" && f.L.Args[0].Name == "ServerName":
+				return "more than one host_name in the server_name list"
+			case f.Op == ">" && f.R != nil && f.R.Name == "1" && f.L.Op == "field" && f.L.Name == "Type":
+				return "ECHClientHello.type is not outer or inner"
+			case f.Op == "!=" && f.R != nil && f.R.Name == "0" && (f.L.Op == "index" || f.L.Op == "phi"):
+				return "non-zero padding of an EncodedClientHelloInner"
+			case f.Op == "true" && f.L.Op == "call" && strings.HasSuffix(f.L.Name, "ContainsFunc"):
+				return "non-zero padding of an EncodedClientHelloInner"
+			}
+		}
+		return ""
+	}
+	n := 0
+	for _, fn := range []*ssa.Function{m.parseCH, m.parseExt} {
+		for i, ret := range core.Returns(fn) {
+			if lastResultNil(ret) {
+				continue
+			}
+			n++
+			key := fmt.Sprintf("%s:reject#%d", p.FuncName(fn), i)
+			e := p.X(retErr(ret))
+			// an error handed up from a module function it called (judged there)
+			propagated := false
+			for _, a := range e.Alts() {
+				if a.Op == "ext" && a.Args[0].Op == "call" && a.Args[0].Fn != nil && inModule(p, a.Args[0].Fn) {
+					propagated = true
+				}
+				if a.Op == "call" && a.Fn != nil && inModule(p, a.Fn) {
+					propagated = true
+				}
+			}
+			if propagated {
+				r.Check(rule, key, true, p.InstrPos(ret), "error handed up from a callee")
+				continue
+			}
+			why := reason(p.Facts(ret.Block()))
+			if why == "" && len(ret.Block().Preds) > 1 {
+				// several failures share the return: each way in needs a reason
+				why = "-"
+				for _, pr := range ret.Block().Preds {
+					if w := reason(p.EdgeFacts(pr, ret.Block())); w == "" {
+						why = ""
+					} else if why == "-" {
+						why = w
+					}
+				}
+			}
+			r.Check(rule, key, why != "", p.InstrPos(ret), "the parser rejects a hello here because: %s (only malformed input and the rejections the specifications name are allowed; guards: %s)", map[bool]string{true: why, false: "NO RECOGNISED REASON"}[why != ""], shortStr(core.FactStrings(p.Facts(ret.Block()))))
+		}
+	}
+	r.Check(rule, "rejections", n >= 15, p.Pos(m.parseCH.Pos()), "error returns of the hello parser examined (%d)", n)
 }
